@@ -73,6 +73,17 @@ def run(ctx):
         elif want is not None and not r.endswith("@%d" % want) and len(ctx.violations) < 40:
             ctx.report("Check reports %s for a violated %s rule, the offending value starts at %d: %r" % (r, rule, want, t[:200]), "c04d:" + t,
                        {"schema": t, "violated_rule": rule, "implementation": r, "expected_position": want}, case=t)
+    import os
+    cf = os.path.join(vc.ROOT, "corpus", "C04", "fixed.json")
+    if os.path.exists(cf):
+        corpus = json.load(open(cf))
+        for c, o in zip(corpus, vc.impl(["schema"], [json.dumps({"schema": c["schema"], "ops": [["check"], ["validate", c["document"]]]}) for c in corpus])):
+            r = json.loads(o)
+            ctx.evaluations += 1
+            got = "accept" if r[1] == "ok" else "reject"
+            if (r[0] != "ok" or got != c["expect"]) and len(ctx.violations) < 40:
+                ctx.report("corpus case: Check %s, Validate(%s) %s, expected %s: schema %r" % (r[0], c["document"], r[1], c["expect"], c["schema"]), "c04corpus:" + c["schema"] + c["document"], dict(c, implementation=r), case=c["schema"])
+    declared_stream(ctx, rng, 400 if quick else 8000)
     ctx.extra["schemas"] = len(base)
     ctx.extra["corruptions"] = len(planted)
     ctx.samples.append({"schema": base[3][1]})
@@ -80,6 +91,82 @@ def run(ctx):
         ctx.samples.append({"corrupted_schema": planted[0][3], "rule": planted[0][2]})
     if not st["proof"] and not ctx.violations:
         ctx.report("proof obligation(s) no longer check: %s" % ", ".join(ctx.proof_broken), "proof-broken", {"broken": ctx.proof_broken}, no_input=True)
+
+
+KEX = {"object": "{}", "array": "[]", "string": '"abc"', "integer": "7", "float": "2.5", "boolean": "true"}
+
+
+def declared_stream(ctx, rng, n):
+    """declared types on several nodes of one schema: {type: "kind"}, {or: ["k1", "k2"]}, {or: [rule-sets]}, {type: "@T"}, each with or without nullable: true.
+    Check succeeds iff every example has a declared kind and obeys the rules of (one of) its alternatives; otherwise it fails at a non-conforming value."""
+    types = [["@I", "5 // {min: 0, max: 9}"], ["@S", '"abc" // {minLength: 2}']]
+    cases = []
+    for _ in range(n):
+        props = []
+        for key in rng.sample(["a", "b", "c", "d"], rng.choice([1, 2, 2, 3, 4])):
+            form = rng.choice(["type", "or-names", "or-names", "or-sets", "tref"])
+            conform = rng.random() < 0.7
+            nullable = rng.random() < 0.4
+            if form == "type":
+                exk = rng.choice(list(KEX))
+                other = [k for k in KEX if k != exk and {k, exk} != {"integer", "float"}]
+                ex, rule = KEX[exk], 'type: "%s"' % (exk if conform else rng.choice(other))
+            elif form == "or-names":
+                exk = rng.choice(list(KEX))
+                other = [k for k in KEX if k != exk and {k, exk} != {"integer", "float"}]
+                ks = ([exk] + rng.sample(other, 1)) if conform else rng.sample(other, 2)
+                rng.shuffle(ks)
+                ex, rule = KEX[exk], "or: [%s]" % ", ".join('"%s"' % k if rng.random() < 0.6 else '{type: "%s"}' % k for k in ks)
+            elif form == "or-sets":
+                lo, ml = rng.choice([0, 5, 10]), rng.choice([1, 3, 5])
+                if rng.random() < 0.5:
+                    v = lo + rng.choice([0, 1, 7]) if conform else lo - rng.choice([1, 2])
+                    ex = str(v)
+                else:
+                    ex = json.dumps("x" * (ml + rng.choice([0, 1]) if conform else ml - 1))
+                alts = ['{type: "integer", min: %d}' % lo, '{type: "string", minLength: %d}' % ml]
+                rng.shuffle(alts)
+                rule = "or: [%s]" % ", ".join(alts)
+            else:
+                t = rng.choice(["@I", "@S"])
+                if t == "@I":
+                    ex = str(rng.choice([0, 5, 9])) if conform else rng.choice(["-1", "10", '"s"', "true"])
+                else:
+                    ex = rng.choice(['"ab"', '"abcd"']) if conform else rng.choice(['"a"', '""', "3"])
+                rule = 'type: "%s"' % t
+            rules = [rule] + (["nullable: true"] if nullable else [])
+            rng.shuffle(rules)
+            props.append((key, ex, rules, conform))
+        # print, remembering the offset of each example value
+        text, offs = "{\n", []
+        for i, (key, ex, rules, conform) in enumerate(props):
+            head = '  "%s": ' % key
+            offs.append(len(text.encode()) + len(head))
+            text += head + ex + ("," if i < len(props) - 1 else "") + " // {%s}\n" % ", ".join(rules)
+        text += "}"
+        cases.append((text, props, offs))
+    outs = vc.impl_parallel(["schema"], [json.dumps({"schema": t, "types": types, "ops": [["check"], ["validate", "{" + ",".join('"%s":%s' % (k, ex) for k, ex, _, _ in props) + "}"]]}) for t, props, _ in cases])
+    nbad = 0
+    for (text, props, offs), o in zip(cases, outs):
+        r = json.loads(o)
+        ctx.evaluations += 1
+        bad = [off for (k, ex, rules, conform), off in zip(props, offs) if not conform]
+        if len(props) >= 2:
+            ctx.nontrivial.add(text)
+        nbad += 1 if bad else 0
+        info = {"schema": text, "types": types, "check": r[0], "non_conforming_offsets": bad}
+        if not bad:
+            if r[0] != "ok":
+                if len(ctx.violations) < 40:
+                    ctx.report("Check rejects a schema whose examples have their declared types: %s on %r" % (r[0], text[:200]), "c04e:" + text, info, case=text)
+            elif r[1] != "ok" and len(ctx.violations) < 40:
+                ctx.report("Check succeeds but validating the schema's own example fails: %s; schema %r" % (r[1], text[:200]), "c04f:" + text, dict(info, validate=r[1]), case=text)
+        elif r[0] == "ok":
+            if len(ctx.violations) < 40:
+                ctx.report("Check accepts a schema with an example outside its declared type(s) at offset(s) %s: %r" % (bad, text[:220]), "c04g:" + text, info, case=text)
+        elif not any(r[0].endswith("@%d" % b) for b in bad) and len(ctx.violations) < 40:
+            ctx.report("Check reports %s, the non-conforming example value(s) start at %s: %r" % (r[0], bad, text[:220]), "c04h:" + text, info, case=text)
+    ctx.extra["declared_type_schemas"] = {"n": len(cases), "with_violation": nbad}
 
 
 def value_offset(w, target, text):
